@@ -429,6 +429,18 @@ def param_digests(self):
     return [(k, v, digest(v)) for k, v in captured_arrays(self)]
 
 
+def in_chain(e, attr):
+    """True when the exception or one of its causes carries the marker attribute (sigpy
+    re-raises every exception of a nested prox as a new RuntimeError `from` the original)."""
+    seen = 0
+    while e is not None and seen < 20:
+        if getattr(e, attr, False):
+            return True
+        e = e.__cause__
+        seen += 1
+    return False
+
+
 def install():
     import icontract
     import sigpy.prox as SP
@@ -443,7 +455,13 @@ def install():
         try:
             return contracted(self, alpha, input)
         except Exception as e:
-            if not getattr(e, "_vf_seen", False):
+            if in_chain(e, "_vf_unresolvable"):
+                try:
+                    e._vf_unresolvable = True
+                    e._vf_seen = True
+                except Exception:
+                    pass
+            if not in_chain(e, "_vf_seen"):
                 try:
                     e._vf_seen = True
                 except Exception:
@@ -453,6 +471,18 @@ def install():
                     and tuple(input.shape) == tuple(self.shape)
                     and np.all(np.isfinite(input))
                     and np.all(np.asarray(alpha) > 0))
+                if wellformed and isinstance(self, SP.L1Proj):
+                    # a ball radius below one ulp of the data's l1 norm: `cumsum(s) - eps`
+                    # rounds back to `cumsum(s)` and Duchi's rule finds no index.  The data
+                    # cannot resolve the problem in this precision: inconclusive, not a verdict
+                    me = 1.2e-7 if input.dtype in (np.float32, np.complex64) else 2.3e-16
+                    if float(self.epsilon) <= 8 * me * float(np.sum(np.abs(input))):
+                        STATE.count["L1Proj:unresolvable-raise"] += 1
+                        wellformed = False
+                        try:
+                            e._vf_unresolvable = True
+                        except Exception:
+                            pass
                 if wellformed:
                     cause = e.__cause__ or e
                     STATE.event("C11", "raised:" + type(self).__name__,
